@@ -43,6 +43,9 @@ def sheets_from_spec(wbj, ov=None):
             v = f"={a1(pos[f['a']], s)}+{f['b']}"
         elif op == 'mulk':
             v = f"={a1(pos[f['a']], s)}*{f['b']}"
+        elif op == 'wcol':
+            col = repo.col_letters(f['col'])
+            v = f"=SUM({col}:{col})" if f['s'] == s else f"=SUM({TITLES[f['s']]}!{col}:{col})"
         elif op == 'kdiv':
             v = f"={f['a']}/{a1(pos[f['b']], s)}"
         else:
